@@ -123,7 +123,9 @@ func legacyAttr(id int, salt uint64) slog.Attr {
 	case "emptygroup":
 		return slog.Group("eg" + n)
 	case "group":
-		return slog.Group("g"+n, slog.Attr{Key: "a", Value: plainValues[(uint64(id/8)+salt)%uint64(len(plainValues))](id)})
+		// The member's name is a built-in key now and then: inside a group it is kept.
+		return slog.Group("g"+n, slog.Attr{Key: []string{"a", slog.TimeKey, slog.MessageKey, slog.LevelKey, slog.SourceKey}[(uint64(id/8)+salt/3)%5],
+			Value: plainValues[(uint64(id/8)+salt)%uint64(len(plainValues))](id)})
 	}
 	return slog.Attr{Key: "k" + n, Value: plainValues[(uint64(id/8)+salt)%uint64(len(plainValues))](id)}
 }
@@ -407,11 +409,17 @@ func legacyRecord(l, m int, ra []int, salt uint64) slog.Record {
 
 // call performs one operation of LegacyLog.tla and parses what it printed.
 func (w *lgWorld) call(op []any, alt bool) (obs lgObs, raw []string, herr error) {
+	// A panic of the code under test is an observation, not a harness failure.
+	defer func() {
+		if pv := recover(); pv != nil {
+			obs, raw, herr = lgObs{Ret: fmt.Sprintf("panic: %v", pv), Lines: []lgLine{}}, nil, nil
+		}
+	}()
 	obs = lgObs{Ret: "none"}
 	w.buf.Reset()
 	ctx := context.Background()
 	typ := opStr(op[0])
-	need := map[string]int{"setlevel": 2, "getlevel": 1, "info": 2, "print": 2, "printf": 2, "println": 2, "debug": 2, "error": 2,
+	need := map[string]int{"setlevel": 2, "getlevel": 1, "writer": 1, "info": 2, "print": 2, "printf": 2, "println": 2, "debug": 2, "error": 2,
 		"tracef": 2, "panic": 2, "panicf": 2, "elapsed": 2, "stdlog": 4, "onpanic": 3, "oncloser": 3, "hnew": 2, "hattrs": 3,
 		"hgroup": 2, "henabled": 3, "hhandle": 5, "hlog": 5}
 	if n, ok := need[typ]; !ok || len(op) != n {
@@ -432,6 +440,11 @@ func (w *lgWorld) call(op []any, alt bool) (obs lgObs, raw []string, herr error)
 		aglog.SetLevel(aglog.Level(opInt(op[1])))
 	case "getlevel":
 		obs.Ret, obs.N = "level", int(aglog.GetLevel())
+	case "writer":
+		obs.Ret = "another writer"
+		if b, ok := aglog.Writer().(*bytes.Buffer); ok && b == &w.buf {
+			obs.Ret = "output"
+		}
 	case "info":
 		fcall(aglog.Info, lgMsg(opInt(op[1])))
 	case "printf":
@@ -604,6 +617,8 @@ type lgHandlerState struct {
 }
 
 type lgVec struct {
+	// Salt, when present (a recorded failing vector), is the concretisation to use again.
+	Salt  *uint64          `json:"salt,omitempty"`
 	G0    int              `json:"g0"`
 	Steps []lgStep         `json:"steps"`
 	Hs    []lgHandlerState `json:"hs"`
@@ -654,6 +669,10 @@ func replayLegacy(args []string) error {
 			res.Sample(v)
 		}
 		salt := base + uint64(line)
+		if v.Salt != nil {
+			salt = *v.Salt
+		}
+		v.Salt = &salt
 		w := newLgWorld(v.G0, salt)
 		for i, st := range v.Steps {
 			got, rawLines, herr := w.call(st.Op, (line+i)%2 == 1)
@@ -707,7 +726,7 @@ func recordLegacy(args []string) error {
 		return err
 	}
 	rng := vh.Rand(402)
-	types := []string{"setlevel", "getlevel", "info", "print", "printf", "println", "debug", "error", "tracef", "panic", "panicf", "elapsed",
+	types := []string{"setlevel", "getlevel", "writer", "info", "print", "printf", "println", "debug", "error", "tracef", "panic", "panicf", "elapsed",
 		"stdlog", "stdlog", "onpanic", "onpanic", "oncloser", "oncloser", "hnew", "hattrs", "hattrs", "hattrs", "hgroup", "henabled",
 		"hhandle", "hhandle", "hhandle", "hhandle", "hhandle", "hhandle", "hlog", "hlog", "hlog"}
 	calls, nlines := 0, 0
@@ -728,6 +747,15 @@ func recordLegacy(args []string) error {
 				out = append(out, id)
 			}
 			return out
+		}
+		// Every other history starts with a chain whose attribute slice has spare capacity (3 attributes,
+		// then 1) and two siblings derived from it; the first sibling is used after the second was made.
+		prologue := [][]any{}
+		if hno%2 == 0 {
+			prologue = [][]any{jsonOp("hnew", -8), jsonOp("hattrs", 1, ids(0)), jsonOp("hattrs", 1, []int{801, 809, 817}),
+				jsonOp("hattrs", 3, []int{825}), jsonOp("hattrs", 4, []int{833}), jsonOp("hattrs", 4, []int{841}),
+				jsonOp("hhandle", 5, 8, 1, []int{}), jsonOp("hattrs", 5, []int{849}), jsonOp("hattrs", 5, []int{857}),
+				jsonOp("hlog", 7, 8, 2, []int{865}), jsonOp("hhandle", 6, 8, 3, []int{})}
 		}
 		for i, n := 0, 40+rng.IntN(160); i < n; i++ {
 			typ := types[rng.IntN(len(types))]
@@ -751,7 +779,7 @@ func recordLegacy(args []string) error {
 			switch typ {
 			case "setlevel":
 				op = jsonOp(typ, rng.IntN(4))
-			case "getlevel":
+			case "getlevel", "writer":
 				op = jsonOp(typ)
 			case "stdlog":
 				op = jsonOp(typ, rng.IntN(3), rng.IntN(4), m)
@@ -771,6 +799,9 @@ func recordLegacy(args []string) error {
 				op = jsonOp(typ, pick(), lvl(), m, ids(4))
 			default:
 				op = jsonOp(typ, m)
+			}
+			if i < len(prologue) {
+				op = prologue[i]
 			}
 			obs, raw, herr := w.call(op, rng.IntN(2) == 0)
 			if herr != nil {
